@@ -15,7 +15,14 @@
    [q_time] (a virtual clock, in whole seconds; constant during one request).
    The two agents are oracles: [q_exec]/[q_assess] is what executor.express /
    assessor.express does IF it is invoked at that request (it is not invoked
-   on a cache hit, and the assessor is not invoked when the executor raised). *)
+   on a cache hit, and the assessor is not invoked when the executor raised).
+
+   Histories.  One loop object is driven by a list of operations [op]:
+   requests, clear_cache() and the read-only calls (get_statistics,
+   get_results_log, get_circuit_breaker_stats).  Time is in whatever unit the
+   harness chooses (milliseconds), ttl in the same unit.  A case of the
+   correspondence check drives TWO loop objects (each with its own
+   configuration, agents and cache) by one interleaved list of operations. *)
 From Coq Require Import ZArith List Bool.
 From Verif Require Import Common.Corr.
 Import ListNotations.
@@ -106,6 +113,7 @@ Record reply := mkReply {
   r_cached : bool;           (* LoopResult.cached *)
   r_exec_called : bool;      (* executor.express was invoked for this request *)
   r_assess_called : bool;    (* assessor.express was invoked for this request *)
+  r_shown : option str;      (* Signal.content the agents were handed, if they were invoked *)
   r_cache_size : nat }.      (* len(loop._cache) after the request *)
 
 Record config := mkConfig {
@@ -116,6 +124,16 @@ Record config := mkConfig {
   cf_cap : nat }.            (* the size limit, 1000 in the code *)
 
 Record req := mkReq { q_prompt : str; q_time : Z; q_exec : verdict; q_assess : verdict }.
+
+(* what a caller can do with one loop object *)
+Inductive op :=
+| OReq (q : req)      (* loop.run(prompt) *)
+| OClear              (* loop.clear_cache() *)
+| OObserve.           (* get_statistics / get_results_log / get_circuit_breaker_stats *)
+
+(* one step of a history as the harness sees it: the operation, the reply if
+   it was a request, len(loop._cache) afterwards *)
+Definition ev := (op * option reply * nat)%type.
 
 (* the cache: a Python dict in insertion order; value = (result, timestamp) *)
 Definition entry := (str * (core * Z))%type.
@@ -184,24 +202,67 @@ Section Run.
     let k := K (q_prompt q) in
     let '(hit, c1) := if cf_cache cf then check_cache cf (q_time q) k c else (None, c) in
     match hit with
-    | Some res => (c1, mkReply res true false false (length c1))
+    | Some res => (c1, mkReply res true false false None (length c1))
     | None =>
         let res := outcome cf q in
         let exn := raised (q_exec q) || raised (q_assess q) in
         (* the exception return (line 240) comes before _cache_result *)
         let c2 := if cf_cache cf && negb exn
                   then evict (cf_cap cf) (set_entry k (res, q_time q) c1) else c1 in
-        (c2, mkReply res false true (negb (raised (q_exec q))) (length c2))
+        (c2, mkReply res false true (negb (raised (q_exec q))) (Some (q_prompt q)) (length c2))
     end.
 
-  (* a history of requests against one loop object: request/reply pairs *)
-  Fixpoint trace_from (cf : config) (c : cache) (qs : list req) : list (req * reply) :=
-    match qs with
+  Definition step_op (cf : config) (c : cache) (o : op) : cache * ev :=
+    match o with
+    | OReq q => let '(c', rp) := step cf c q in (c', (o, Some rp, length c'))
+    | OClear => ([], (o, None, 0%nat))
+    | OObserve => (c, (o, None, length c))
+    end.
+
+  (* the cache after a sequence of operations *)
+  Fixpoint cache_after (cf : config) (c : cache) (ops : list op) : cache :=
+    match ops with
+    | [] => c
+    | o :: rest => cache_after cf (fst (step_op cf c o)) rest
+    end.
+
+  (* every step of a history against one loop object *)
+  Fixpoint etrace_from (cf : config) (c : cache) (ops : list op) : list ev :=
+    match ops with
     | [] => []
-    | q :: rest => let '(c', rp) := step cf c q in (q, rp) :: trace_from cf c' rest
+    | o :: rest => let '(c', e) := step_op cf c o in e :: etrace_from cf c' rest
     end.
 
-  Definition trace (cf : config) (qs : list req) : list (req * reply) := trace_from cf [] qs.
+  Definition pair_of (e : ev) : list (req * reply) :=
+    match e with
+    | (OReq q, Some rp, _) => [(q, rp)]
+    | _ => []
+    end.
+
+  Definition reqs_of (es : list ev) : list (req * reply) := flat_map pair_of es.
+
+  (* a history against one loop object: its request/reply pairs, in order *)
+  Definition trace_from (cf : config) (c : cache) (ops : list op) : list (req * reply) :=
+    reqs_of (etrace_from cf c ops).
+
+  Definition trace (cf : config) (ops : list op) : list (req * reply) := trace_from cf [] ops.
+
+  (* two loop objects driven by one interleaved list of operations
+     ([false] = the first object, [true] = the second) *)
+  Fixpoint sys_from (cf0 cf1 : config) (c0 c1 : cache) (tops : list (bool * op)) : list (bool * ev) :=
+    match tops with
+    | [] => []
+    | (b, o) :: rest =>
+        if b then let '(c1', e) := step_op cf1 c1 o in (b, e) :: sys_from cf0 cf1 c0 c1' rest
+        else let '(c0', e) := step_op cf0 c0 o in (b, e) :: sys_from cf0 cf1 c0' c1 rest
+    end.
+
+  Definition sys_trace (cf0 cf1 : config) (tops : list (bool * op)) : list (bool * ev) :=
+    sys_from cf0 cf1 [] [] tops.
+
+  (* the part of an interleaved list that concerns one of the two objects *)
+  Definition proj {A : Type} (b : bool) (l : list (bool * A)) : list A :=
+    map snd (filter (fun x => Bool.eqb (fst x) b) l).
 End Run.
 
 (* ---------------------------------------------------------------------- *)
@@ -255,22 +316,46 @@ Definition covers (t : list (Z * Z * Z * list Z)) : bool :=
    injective function would do: the harness checks on every case that the
    real md5[:16]/sha256[:16] are injective on the prompts of the case and
    observes only WHETHER the token hash is the hash of the request). *)
-Definition case := (logic * str * bool * Z * nat * list (str * Z * verdict * verdict))%type.
+Inductive cop := CReq (p : str) (t : Z) (z y : verdict) | CClear | CObserve.
 
-Definition reply_obs (cf : config) (x : req * reply) : list Z :=
-  let '(q, r) := x in
+Definition op_of (o : cop) : op :=
+  match o with
+  | CReq p t z y => OReq (mkReq p t z y)
+  | CClear => OClear
+  | CObserve => OObserve
+  end.
+
+(* configuration of one loop object: gate logic, assessor name, enable_cache, ttl *)
+Definition lcfg := (logic * str * bool * Z)%type.
+
+Definition case := (lcfg * lcfg * nat * list (bool * cop))%type.
+
+Definition reply_obs (cf : config) (q : req) (r : reply) : list Z :=
   let c := r_core r in
   [ b2z (c_blocked c); b2z (c_success c); action_code (c_action c);
     match c_token c with Some _ => 1 | None => 0 end;
     match c_token c with Some t => b2z (zl_eqb (tk_hash t) (q_prompt q)) | None => 0 end;
     match c_token c with Some t => b2z (zl_eqb (tk_issuer t) (cf_assessor cf)) | None => 0 end;
     b2z (r_cached r); b2z (r_exec_called r); b2z (r_assess_called r);
+    match r_shown r with Some s => b2z (zl_eqb s (q_prompt q)) | None => -1 end;
     Z.of_nat (r_cache_size r) ].
 
+(* a request row is the eleven values above; clear_cache / observer rows are
+   the cache size alone *)
+Definition ev_obs (cf0 cf1 : config) (x : bool * ev) : list Z :=
+  let '(b, (o, r, n)) := x in
+  match o, r with
+  | OReq q, Some rp => reply_obs (if b then cf1 else cf0) q rp
+  | _, _ => [Z.of_nat n]
+  end.
+
+Definition config_of (l : lcfg) (cap : nat) : config :=
+  let '(lg, nm, en, ttl) := l in mkConfig lg nm en ttl cap.
+
 Definition run_case (c : case) : list (list Z) :=
-  let '(l, nm, en, ttl, cap, qs) := c in
-  let cf := mkConfig l nm en ttl cap in
-  map (reply_obs cf)
-      (trace (fun p => p) (fun p => p) cf
-             (map (fun x : str * Z * verdict * verdict =>
-                     let '(p, t, z, y) := x in mkReq p t z y) qs)).
+  let '(l0, l1, cap, tops) := c in
+  let cf0 := config_of l0 cap in
+  let cf1 := config_of l1 cap in
+  map (ev_obs cf0 cf1)
+      (sys_trace (fun p => p) (fun p => p) cf0 cf1
+                 (map (fun x : bool * cop => (fst x, op_of (snd x))) tops)).
